@@ -125,7 +125,7 @@ Section NoPanic.
   Proof. unfold refresh_line_with_msg. q_auto; apply q_refresh. Qed.
   Lemma q_move_cursor : quiet (move_cursor U cfg). Proof. unfold move_cursor. q_auto. Qed.
   Lemma q_move_cursor_to_end : quiet move_cursor_to_end. Proof. unfold move_cursor_to_end. q_auto. Qed.
-  Lemma q_beep : quiet beep. Proof. unfold beep. q_auto. Qed.
+  Lemma q_beep : quiet (beep cfg). Proof. unfold beep. q_auto. Qed.
 
   Ltac q_side :=
     first [ apply q_refresh_line | apply q_refresh_line_with_msg | apply q_refresh | apply q_update_hint
@@ -295,7 +295,7 @@ Section NoPanic.
   Proof.
     unfold complete_hint_line. intros s HJ. unfold ebind at 1. cbn [eget]. destruct (e_hint s) as [text|]; [|cbn; exact HJ].
     revert s HJ. change (np (edo _ <- lb_quiet move_end; edo r <- lb_changes U (yank text 1);
-                             (match r with None => beep | Some _ => eret tt end) ;;; refresh_line U cfg)).
+                             (match r with None => beep cfg | Some _ => eret tt end) ;;; refresh_line U cfg)).
     apply np_bind; [apply np_lb_quiet; [apply move_end_total|apply pure_move_end|apply kg_move_end]|]. intros _.
     apply np_bind; [apply np_lb_changes; [apply yank_total|apply good_yank|apply kg_yank]|]. intros r.
     apply np_bind; [destruct r; np_q|]. intros _. np_q.
